@@ -24,6 +24,8 @@ def make_row(hs, label):
         return {'id': hs.Ref('r')}
     if label == 'RD':
         return {'id': hs.Ref('r', 'dis')}
+    if label == 'L':
+        return {'x': [1.0]}
     if label == 'n5':
         return 5
     if label == 'nl':
@@ -36,6 +38,8 @@ def make_row(hs, label):
 def row_label(hs, row):
     if not isinstance(row, dict):
         return {int: 'n5', list: 'nl', type(None): 'nN'}.get(type(row), '?')
+    if isinstance(row.get('x'), list):
+        return 'L'
     if 'dup' in row:
         return 'A2'
     if 'x' in row:
@@ -66,14 +70,22 @@ class GridSpec(H.Spec):
         self.hs = hszinc
 
     # ---- roots: a fresh grid, and grids derived from reached states (slices, filter results) -----
+    ROOTS = [['fresh'], ['fresh-unversioned']]
+
     def roots(self):
-        return [['fresh']]
+        return [list(r) for r in self.ROOTS]
 
     def fresh(self, root):
         hs = self.hs
         if root[0] == 'fresh':
             g = hs.Grid(version='3.0', metadata={'m': 'meta'}, columns=[('id', []), ('x', [('u', 'kg')]), ('dup', [])])
             return g, []
+        if root[0] == 'fresh-unversioned':
+            # no explicit version: the list row upgrades the grid to 3.0, which every derived grid must report too
+            g = hs.Grid(metadata={'m': 'meta'}, columns=[('id', []), ('x', [('u', 'kg')]), ('dup', [])])
+            r = make_row(hs, 'L')
+            g.append(r)
+            return g, [r]
         kind, base_root, hist, a, b = root
         g, model = H.build(self, base_root, [tuple(o) for o in hist])
         if kind == 'slice':
@@ -83,7 +95,7 @@ class GridSpec(H.Spec):
         raise HarnessError(root)
 
     def derived_roots(self, g, model, hist, root):
-        if root[0] != 'fresh' or len(hist) > 3 or not model:
+        if root[0] not in ('fresh', 'fresh-unversioned') or len(hist) > 3 or not model:
             return []
         out = []
         n = len(model)
@@ -377,7 +389,7 @@ class GridSpec(H.Spec):
             hidden = tuple(sorted(ent))
         else:
             hidden = ('unknown', id(g))
-        return (labels, hidden)
+        return (labels, hidden, bool(getattr(g, '_version_given', True)), str(g.version))
 
 
 class C14Quick(GridSpec):
@@ -395,6 +407,7 @@ class C14Thorough(C14Quick):
 
 class C15Quick(GridSpec):
     prop = 'C15'
+    ROOTS = [['fresh']]          # the declared version plays no part in id lookups
     ROWS = ['E', 'A', 'A2', 'B', 'I7', 'R', 'RD']
     NONDICT = ['n5']
 
@@ -455,7 +468,7 @@ def run(ctx, prop):
     depth = 4 if ctx.quick else 6
     states = [(['fresh'], [])]
     st, info = H.bfs(factory, depth=depth, seed=ctx.seed, jobs=ctx.jobs, collect=states)
-    pair_states = [(r, h) for r, h in states if r[0] == 'fresh' and len(h) <= (2 if ctx.quick else 3)]
+    pair_states = [(r, h) for r, h in states if r[0] in ('fresh', 'fresh-unversioned') and len(h) <= (2 if ctx.quick else 3)]
     from mc.explore import pmap, chunks
     for part in pmap(aliasing_task, [(factory, c) for c in chunks(pair_states, ctx.jobs * 2)], ctx.jobs):
         st.merge(part)
